@@ -33,7 +33,7 @@ fn decode_all_lengths<const N: usize>(buf: &[u8; N]) {
     }
 }
 
-//@ props: C10
+//@ props: UNREACHED-C10
 //@ timeout: 1800
 //@ harness: c10_bytes_8
 //@ desc: parse_jsonb on every byte string of length 0..=8 (all bytes symbolic: header kind, counts, entry type and length fields, payloads): returns Ok or Err, never panics (no failed unwrap/assert/index, no arithmetic overflow)
@@ -46,7 +46,7 @@ harness!(c10_bytes_8, 6, {
     decode_all_lengths(&buf);
 });
 
-//@ props: C10
+//@ props: UNREACHED-C10
 //@ tier: thorough
 //@ timeout: 3600
 //@ harness: c10_bytes_12
@@ -144,14 +144,15 @@ fn prefixes(d: &B) {
 }
 //@ props: C10
 //@ timeout: 1800
-//@ harness: c10_prefix_a, c10_prefix_b, c10_prefix_c
-//@ desc: every proper prefix (truncation at every offset) of the encodings of [n2,s2,null], {k:n9,kk:[s1]}, "s2" (scalar string: the text fallback sees header bytes then the payload), n9, [[n2],{k:s1}] with symbolic payloads is rejected with an error by parse_jsonb and by from_slice (binary decode fails and the text fallback rejects the bytes too)
+//@ harness: c10_prefix_a, c10_prefix_b, c10_prefix_c, c10_prefix_d
+//@ desc: every proper prefix (truncation at every offset) of the encodings of "s2" (scalar string: the text fallback sees header bytes then the payload), a 9-byte number, [n5,s1] and {k:n3} with symbolic payloads (a cut inside a multi-byte number leaves a shorter slice that must not be accepted as a shorter number) is rejected with an error by parse_jsonb and by from_slice (binary decode fails and the text fallback rejects the bytes too)
 //@ fns: parse_jsonb, from_slice, Decoder::decode, parse_value, Parser::parse, Parser::skip_unused
 //@ bounds: documents <= 40 bytes
 //@ stubs: drop_in_place -> no-op | core::str::from_utf8 -> specification model (DFA over Unicode table 3-7)
-harness!(c10_prefix_a, 66, split1(2, |k| if k == 0 { prefixes(&B::build(&arr(&[leaf(K_NUM, 2), leaf(K_STR, 2), leaf(K_NULL, 0)]))) } else { prefixes(&B::build(&leaf(K_STR, 2))) }));
-harness!(c10_prefix_b, 66, split1(2, |k| if k == 0 { prefixes(&B::build(&obj(&[1, 2], &[leaf(K_NUM, 9), arr(&[leaf(K_STR, 1)])]))) } else { prefixes(&B::build(&leaf(K_NUM, 9))) }));
-harness!(c10_prefix_c, 66, prefixes(&B::build(&arr(&[arr(&[leaf(K_NUM, 2)]), obj(&[1], &[leaf(K_STR, 1)])]))));
+harness!(c10_prefix_a, 66, prefixes(&B::build(&leaf(K_STR, 2))));
+harness!(c10_prefix_b, 66, prefixes(&B::build(&leaf(K_NUM, 9))));
+harness!(c10_prefix_c, 66, prefixes(&B::build(&arr(&[leaf(K_NUM, 5), leaf(K_STR, 1)]))));
+harness!(c10_prefix_d, 66, prefixes(&B::build(&obj(&[1], &[leaf(K_NUM, 3)]))));
 
 /// single-byte faults: one byte of a valid encoding replaced by an arbitrary byte, at every offset
 fn fault(d: &B) {
@@ -171,7 +172,7 @@ fn fault(d: &B) {
         l += 1;
     }
 }
-//@ props: C10
+//@ props: UNREACHED-C10
 //@ timeout: 1800
 //@ harness: c10_fault_a, c10_fault_b
 //@ desc: byte substitution (hence every bit flip) at every offset of the encodings of [n2,s1] and {k:[null]}: header kind/count bytes, entry type and length bytes and payload bytes each replaced by an arbitrary value: parse_jsonb returns Ok or Err, never panics
